@@ -8,6 +8,10 @@ checks = {
    "Generated procedures are run by the real binary undisturbed and once per (top-level position x {failing statement, EXIT, EXIT n, TRIGGER ERROR, failing COMMIT}) and per (statement execution or commit step x {SIGINT, SIGTERM}) with the signal self-delivered exactly at that hook point. The expected state is observed, not modelled: the procedure dumps every table before each COMMIT and at its end; with C = commits the hook trace shows completed, the disk re-read by a fresh process must equal dump C, later-created files must not exist, the untouched file must be byte-identical, and every ROLLBACK must restore the last committed dump.",
    "Termination is enumerated at statement and commit-step granularity (finer points: C10/C11). NULL and empty text coincide in the comparison. Trusts csvq's SELECT * for the dumps (checked by C03/C05).",
    "runtime fault injection (self-delivered signals / injected failing statements at enumerated points) + observation-based state oracle"),
+ "C03": ("exploration", "§5 C03",
+   "Generated SELECT queries (tables, derived tables, CTEs incl. recursive and multiply-referenced ones, CROSS/INNER/LEFT/RIGHT/FULL joins with ON / USING / NATURAL, LATERAL, nested; WHERE with comparisons, logic, IS NULL, BETWEEN, IN list/subquery, EXISTS and scalar subqueries incl. correlated; select lists with *, t.*, arithmetic, CASE) are executed in-process by the real pipeline and compared with an independent nested-loop relational evaluator: bag equality of typed rows, sequence equality for single-source queries. Plus two metamorphic oracles that need no reference: ternary-logic partition over predicates with built-in functions, and the outer-join identities. Every 8th case runs the parallel filter/join paths (160..320 rows, --cpu 2..8).",
+   "Judged on integer / non-numeric text / NULL cells where the coercion ladder is unambiguous. Nested joins are parenthesised explicitly (csvq's grammar groups `a CROSS JOIN b INNER JOIN c ON …` to the right, which the manual does not pin down; not judged).",
+   "runtime monitor: differential check against an independent relational evaluator + metamorphic (TLP, join identities) oracles"),
  "C04": ("exploration", "§5 C04",
    "Generated tables carry a unique id per row; the buckets csvq forms are read off as id sets (LISTAGG(id) under GROUP BY and OVER (PARTITION BY), representatives for DISTINCT and the set operators) and judged pairwise against an independent three-valued equality relation (same / different / unspecified), with and without --strict-equal, on key pools that contain csvq's internal key separators split differently across columns, numbers in several spellings, datetimes, boolean words and NULLs, incl. planted tuples whose concatenations coincide; every aggregate is recomputed over the rows of its bucket. Every 8th case runs the parallel group path (200..700 rows, --cpu 2..8).",
    "Trusts the harness equality relation as a reading of the manual; pairs the manual leaves open (boolean word vs 0/1, 1 vs 1.0, one instant in two layouts, NaN) are not judged.",
